@@ -29,6 +29,7 @@ type frame struct {
 	defers    *deferred
 	result    Value
 	depth0    int
+	spTop     int
 	panicking bool
 	panicV    interface{}
 }
@@ -51,6 +52,24 @@ func (fr *frame) get(v ssa.Value) Value {
 	}
 	panic(fmt.Sprintf("get: no register for %T %s in %s", v, v.Name(), fr.fn))
 }
+
+// arg fetches the k-th precompiled operand of an instruction.
+func (fr *frame) arg(pi *pinstr, k int) Value {
+	o := &pi.ops[k]
+	switch o.kind {
+	case opReg:
+		return fr.regs[o.idx]
+	case opConst:
+		return o.val
+	case opGlobal:
+		return fr.m.global(o.g)
+	case opZero:
+		return zero(o.t)
+	}
+	return nil
+}
+
+func (fr *frame) setd(pi *pinstr, x Value) { fr.regs[pi.dst] = x }
 
 func (fr *frame) set(v ssa.Value, x Value) {
 	fr.regs[fr.fi.idx[vptr(v)]] = x
@@ -198,7 +217,23 @@ func (m *Machine) callSSA(caller *frame, fn *ssa.Function, args []Value, env []V
 		m.Stats.Funcs[fi.name] = true
 	}
 	fr := &frame{m: m, caller: caller, fn: fn, fi: fi, depth0: m.depth}
-	fr.regs = make([]Value, fi.nregs)
+	// registers and non-escaping locals live on the machine's value stack
+	need := fi.nregs + len(fn.Locals)
+	sp0 := m.sp
+	if sp0+need > len(m.vstack) {
+		sz := 2 * len(m.vstack)
+		if sz < 1<<14 {
+			sz = 1 << 14
+		}
+		if sz < need {
+			sz = 2 * need
+		}
+		m.vstack = make([]Value, sz) // older frames keep their slices of the old chunk
+		sp0 = 0
+	}
+	fr.regs = m.vstack[sp0 : sp0+fi.nregs : sp0+fi.nregs]
+	m.sp = sp0 + need
+	fr.spTop = m.sp
 	n := 0
 	for range fn.Params {
 		fr.regs[n] = args[n]
@@ -209,10 +244,15 @@ func (m *Machine) callSSA(caller *frame, fn *ssa.Function, args []Value, env []V
 		n++
 	}
 	if len(fn.Locals) > 0 {
-		fr.locals = make([]Value, len(fn.Locals))
-		for i, l := range fn.Locals {
-			fr.locals[i] = zero(deref(l.Type()))
-			fr.regs[fi.idx[vptr(l)]] = &fr.locals[i]
+		fr.locals = m.vstack[sp0+fi.nregs : sp0+need : sp0+need]
+		for i := range fn.Locals {
+			z := &fi.localZero[i]
+			if z.kind == opConst {
+				fr.locals[i] = z.val
+			} else {
+				fr.locals[i] = zero(z.t)
+			}
+			fr.regs[fi.localReg[i]] = &fr.locals[i]
 		}
 	}
 	fr.block = fn.Blocks[0]
@@ -220,6 +260,8 @@ func (m *Machine) callSSA(caller *frame, fn *ssa.Function, args []Value, env []V
 		fr.run()
 	}
 	m.depth--
+	// (after a chunk switch by a dead callee the new chunk holds no live frame: any index is free)
+	m.sp = sp0
 	return fr.result
 }
 
@@ -246,6 +288,7 @@ func (fr *frame) run() {
 		fr.panicking = true
 		fr.panicV = r
 		fr.m.depth = fr.depth0
+		fr.m.sp = fr.spTop // the callees are dead
 		fr.runDefers()
 		// recovered
 		if fr.fn.Recover != nil {
@@ -258,12 +301,13 @@ func (fr *frame) run() {
 	}()
 	for {
 		blk := fr.block
-		for _, instr := range blk.Instrs {
+		code := fr.fi.code[blk.Index]
+		for i, instr := range blk.Instrs {
 			fr.m.steps++
 			if fr.m.steps > fr.m.StepBudget {
 				fr.m.limitFail(fmt.Sprintf("step budget %d exhausted in %s", fr.m.StepBudget, fr.fi.short))
 			}
-			switch fr.visit(instr) {
+			switch fr.visit(instr, &code[i]) {
 			case kReturn:
 				return
 			case kJump:
@@ -274,23 +318,27 @@ func (fr *frame) run() {
 	next:
 		// phis of the new block
 		nb := fr.block
-		var tmp []Value
-		np := 0
-		for _, in := range nb.Instrs {
-			phi, ok := in.(*ssa.Phi)
-			if !ok {
-				break
-			}
-			np++
+		ncode := fr.fi.code[nb.Index]
+		np := fr.fi.nphis[nb.Index]
+		if np > 0 {
+			edge := 0
 			for i, p := range nb.Preds {
 				if p == fr.prev {
-					tmp = append(tmp, fr.get(phi.Edges[i]))
+					edge = i
 					break
 				}
 			}
-		}
-		for i := 0; i < np; i++ {
-			fr.set(nb.Instrs[i].(*ssa.Phi), tmp[i])
+			if np == 1 {
+				fr.regs[ncode[0].dst] = fr.arg(&ncode[0], edge)
+			} else {
+				tmp := make([]Value, np)
+				for i := 0; i < np; i++ {
+					tmp[i] = fr.arg(&ncode[i], edge)
+				}
+				for i := 0; i < np; i++ {
+					fr.regs[ncode[i].dst] = tmp[i]
+				}
+			}
 		}
 	}
 }
@@ -365,7 +413,7 @@ func (m *Machine) IsRuntimeError(v Value) bool {
 	return ok && i.T != nil && i.T == m.rtErrType
 }
 
-func (fr *frame) visit(instr ssa.Instruction) cont {
+func (fr *frame) visit(instr ssa.Instruction, pi *pinstr) cont {
 	m := fr.m
 	switch instr := instr.(type) {
 	case *ssa.DebugRef:
@@ -376,42 +424,42 @@ func (fr *frame) visit(instr ssa.Instruction) cont {
 				m.gLoads = appendUnique(m.gLoads, g.Name())
 			}
 		}
-		fr.set(instr, m.unop(instr, fr.get(instr.X)))
+		fr.setd(pi, m.unop(instr, fr.arg(pi, 0)))
 
 	case *ssa.BinOp:
-		fr.set(instr, m.binop(instr.Op, instr.X.Type(), fr.get(instr.X), fr.get(instr.Y)))
+		fr.setd(pi, m.binop(instr.Op, instr.X.Type(), fr.arg(pi, 0), fr.arg(pi, 1)))
 
 	case *ssa.Call:
-		fn, args := fr.prepareCall(&instr.Call)
-		fr.set(instr, m.callFrom(fr, fn, args, &instr.Call))
+		fn, args := fr.prepareCall(&instr.Call, pi)
+		fr.setd(pi, m.callFrom(fr, fn, args, &instr.Call))
 
 	case *ssa.ChangeInterface:
-		fr.set(instr, fr.get(instr.X))
+		fr.setd(pi, fr.arg(pi, 0))
 
 	case *ssa.ChangeType:
-		fr.set(instr, fr.get(instr.X))
+		fr.setd(pi, fr.arg(pi, 0))
 
 	case *ssa.Convert:
-		fr.set(instr, m.conv(instr.Type(), instr.X.Type(), fr.get(instr.X)))
+		fr.setd(pi, m.conv(instr.Type(), instr.X.Type(), fr.arg(pi, 0)))
 
 	case *ssa.MakeInterface:
-		fr.set(instr, Iface{T: instr.X.Type(), V: fr.get(instr.X)})
+		fr.setd(pi, Iface{T: instr.X.Type(), V: fr.arg(pi, 0)})
 
 	case *ssa.Extract:
-		fr.set(instr, fr.get(instr.Tuple).(Tuple)[instr.Index])
+		fr.setd(pi, fr.arg(pi, 0).(Tuple)[instr.Index])
 
 	case *ssa.Slice:
-		fr.set(instr, m.slice(instr, fr.get(instr.X), fr.get(instr.Low), fr.get(instr.High), fr.get(instr.Max)))
+		fr.setd(pi, m.slice(instr, fr.arg(pi, 0), fr.arg(pi, 1), fr.arg(pi, 2), fr.arg(pi, 3)))
 
 	case *ssa.Return:
 		switch len(instr.Results) {
 		case 0:
 		case 1:
-			fr.result = fr.get(instr.Results[0])
+			fr.result = fr.arg(pi, 0)
 		default:
 			res := make(Tuple, len(instr.Results))
-			for i, r := range instr.Results {
-				res[i] = fr.get(r)
+			for i := range instr.Results {
+				res[i] = fr.arg(pi, i)
 			}
 			fr.result = res
 		}
@@ -422,23 +470,23 @@ func (fr *frame) visit(instr ssa.Instruction) cont {
 		fr.runDefers()
 
 	case *ssa.Panic:
-		panic(targetPanic{fr.get(instr.X)})
+		panic(targetPanic{fr.arg(pi, 0)})
 
 	case *ssa.Store:
 		if g, ok := instr.Addr.(*ssa.Global); ok && m.trackGlobals && m.inRoot(g.Pkg) && !m.isHarnessFn(fr.fn) {
 			m.gStores = append(m.gStores, g.Name())
 		}
-		p := fr.get(instr.Addr).(*Value)
+		p := fr.arg(pi, 0).(*Value)
 		if m.trackGlobals && m.ownedCells[p] != "" && !m.isHarnessFn(fr.fn) {
 			m.gStores = append(m.gStores, "(object reachable from) "+m.ownedCells[p])
 		}
 		if p == nil {
 			m.rtPanic("invalid memory address or nil pointer dereference")
 		}
-		*p = copyVal(fr.get(instr.Val))
+		*p = copyVal(fr.arg(pi, 1))
 
 	case *ssa.If:
-		c := fr.get(instr.Cond)
+		c := fr.arg(pi, 0)
 		var b bool
 		switch c := c.(type) {
 		case bool:
@@ -460,22 +508,22 @@ func (fr *frame) visit(instr ssa.Instruction) cont {
 		return kJump
 
 	case *ssa.Defer:
-		fn, args := fr.prepareCall(&instr.Call)
+		fn, args := fr.prepareCall(&instr.Call, pi)
 		fr.defers = &deferred{fn: fn, args: args, tail: fr.defers}
 
 	case *ssa.Alloc:
 		var addr *Value
 		if instr.Heap {
 			addr = new(Value)
-			fr.set(instr, addr)
+			fr.setd(pi, addr)
 		} else {
-			addr = fr.get(instr).(*Value)
+			addr = fr.regs[pi.dst].(*Value)
 		}
-		*addr = zero(deref(instr.Type()))
+		*addr = fr.arg(pi, 0)
 
 	case *ssa.MakeSlice:
-		ln := m.asInt(fr.get(instr.Len))
-		cp := m.asInt(fr.get(instr.Cap))
+		ln := m.asInt(fr.arg(pi, 0))
+		cp := m.asInt(fr.arg(pi, 1))
 		if ln < 0 || cp < ln || cp > 1<<24 {
 			m.rtPanic("makeslice: len out of range")
 		}
@@ -484,36 +532,36 @@ func (fr *frame) visit(instr ssa.Instruction) cont {
 		for i := range s {
 			s[i] = zero(et)
 		}
-		fr.set(instr, s[:ln])
+		fr.setd(pi, s[:ln])
 
 	case *ssa.MakeMap:
-		fr.set(instr, newMap(instr.Type().Underlying().(*types.Map).Key()))
+		fr.setd(pi, newMap(instr.Type().Underlying().(*types.Map).Key()))
 
 	case *ssa.Range:
-		fr.set(instr, m.rangeIter(fr.get(instr.X)))
+		fr.setd(pi, m.rangeIter(fr.arg(pi, 0)))
 
 	case *ssa.Next:
-		fr.set(instr, m.next(fr.get(instr.Iter), instr))
+		fr.setd(pi, m.next(fr.arg(pi, 0), instr))
 
 	case *ssa.FieldAddr:
-		p := fr.get(instr.X).(*Value)
+		p := fr.arg(pi, 0).(*Value)
 		if p == nil {
 			m.rtPanic("invalid memory address or nil pointer dereference")
 		}
-		fr.set(instr, &(*p).(Struct)[instr.Field])
+		fr.setd(pi, &(*p).(Struct)[instr.Field])
 
 	case *ssa.Field:
-		fr.set(instr, fr.get(instr.X).(Struct)[instr.Field])
+		fr.setd(pi, fr.arg(pi, 0).(Struct)[instr.Field])
 
 	case *ssa.IndexAddr:
-		x := fr.get(instr.X)
-		idx := m.asInt(fr.get(instr.Index))
+		x := fr.arg(pi, 0)
+		idx := m.asInt(fr.arg(pi, 1))
 		switch x := x.(type) {
 		case []Value:
 			if idx < 0 || idx >= int64(len(x)) {
 				m.rtPanic(fmt.Sprintf("index out of range [%d] with length %d", idx, len(x)))
 			}
-			fr.set(instr, &x[idx])
+			fr.setd(pi, &x[idx])
 		case *Value:
 			if x == nil {
 				m.rtPanic("invalid memory address or nil pointer dereference")
@@ -522,48 +570,48 @@ func (fr *frame) visit(instr ssa.Instruction) cont {
 			if idx < 0 || idx >= int64(len(a)) {
 				m.rtPanic(fmt.Sprintf("index out of range [%d] with length %d", idx, len(a)))
 			}
-			fr.set(instr, &a[idx])
+			fr.setd(pi, &a[idx])
 		default:
 			panic(fmt.Sprintf("IndexAddr on %T", x))
 		}
 
 	case *ssa.Index:
-		x := fr.get(instr.X)
+		x := fr.arg(pi, 0)
 		switch x := x.(type) {
 		case Array:
-			idx := m.asInt(fr.get(instr.Index))
+			idx := m.asInt(fr.arg(pi, 1))
 			if idx < 0 || idx >= int64(len(x)) {
 				m.rtPanic(fmt.Sprintf("index out of range [%d] with length %d", idx, len(x)))
 			}
-			fr.set(instr, x[idx])
+			fr.setd(pi, x[idx])
 		case string, *SStr:
-			fr.set(instr, m.strIndex(x, fr.get(instr.Index)))
+			fr.setd(pi, m.strIndex(x, fr.arg(pi, 1)))
 		default:
 			panic(fmt.Sprintf("Index on %T", x))
 		}
 
 	case *ssa.Lookup:
-		fr.set(instr, m.lookup(instr, fr.get(instr.X), fr.get(instr.Index)))
+		fr.setd(pi, m.lookup(instr, fr.arg(pi, 0), fr.arg(pi, 1)))
 
 	case *ssa.MapUpdate:
-		mp := fr.get(instr.Map).(*Map)
+		mp := fr.arg(pi, 0).(*Map)
 		if mp == nil {
 			m.rtPanic("assignment to entry in nil map")
 		}
 		if m.trackGlobals && m.ownedMaps[mp] != "" && !m.isHarnessFn(fr.fn) {
 			m.gStores = append(m.gStores, "(map reachable from) "+m.ownedMaps[mp])
 		}
-		m.mapSet(mp, fr.get(instr.Key), copyVal(fr.get(instr.Value)))
+		m.mapSet(mp, fr.arg(pi, 1), copyVal(fr.arg(pi, 2)))
 
 	case *ssa.TypeAssert:
-		fr.set(instr, m.typeAssert(instr, fr.get(instr.X).(Iface)))
+		fr.setd(pi, m.typeAssert(instr, fr.arg(pi, 0).(Iface)))
 
 	case *ssa.MakeClosure:
 		var env []Value
-		for _, b := range instr.Bindings {
-			env = append(env, fr.get(b))
+		for i := range instr.Bindings {
+			env = append(env, fr.arg(pi, i))
 		}
-		fr.set(instr, &Closure{Fn: instr.Fn.(*ssa.Function), Env: env})
+		fr.setd(pi, &Closure{Fn: instr.Fn.(*ssa.Function), Env: env})
 
 	case *ssa.Phi:
 		// handled at block entry
@@ -574,8 +622,8 @@ func (fr *frame) visit(instr ssa.Instruction) cont {
 	return kNext
 }
 
-func (fr *frame) prepareCall(cc *ssa.CallCommon) (Value, []Value) {
-	v := fr.get(cc.Value)
+func (fr *frame) prepareCall(cc *ssa.CallCommon, pi *pinstr) (Value, []Value) {
+	v := fr.arg(pi, 0)
 	var fn Value
 	var args []Value
 	if cc.Method == nil {
@@ -592,8 +640,11 @@ func (fr *frame) prepareCall(cc *ssa.CallCommon) (Value, []Value) {
 		fn = f
 		args = append(args, recv.V)
 	}
-	for _, a := range cc.Args {
-		args = append(args, fr.get(a))
+	if args == nil {
+		args = make([]Value, 0, len(cc.Args))
+	}
+	for i := range cc.Args {
+		args = append(args, fr.arg(pi, i+1))
 	}
 	return fn, args
 }
